@@ -218,3 +218,40 @@ Definition fs_matches (c : ws_case) (of : outcome * fsys str) : bool :=
 
 Definition ws_agrees (c : ws_case) : bool := existsb (fs_matches c) (ws_results c).
 Definition ws_leaves (c : ws_case) : nat := length (ws_results c).
+
+(* ---------------------------------------------------------------- root discovery (round 3) *)
+(* One materialised tree: the harness lists it (every entry with its kind; for a config file the
+   project.roots it declares), names the arguments by their components below the tree root, and
+   reports what config.FindBundleRootDirectories answered for every argument and what
+   config.GetPotentialRoots answered for all of them, spelled from the tree root /R. *)
+From Regal Require Export Model.RootDiscovery.
+
+Record disc_case := {
+  dc_tree : rnode;
+  dc_args : list (list str);
+  dc_fbrd : list (list str);          (* per argument *)
+  dc_gpr : list str }.
+
+Definition R_PATH : str := [47;82]%N.    (* "/R" *)
+Definition R_NAME : str := [82]%N.
+
+Definition opt_set_eqb (o : option (list str)) (got : list str) : bool :=
+  match o with Some l => set_eqb l got | None => false end.
+
+Fixpoint all2 {A B} (p : A -> B -> bool) (a : list A) (b : list B) : bool :=
+  match a, b with
+  | [], [] => true
+  | x :: a', y :: b' => p x y && all2 p a' b'
+  | _, _ => false
+  end.
+
+Definition disc_agrees (c : disc_case) : bool :=
+  all2 opt_set_eqb (map (find_bundle_roots R_PATH R_NAME (dc_tree c)) (dc_args c)) (dc_fbrd c)
+  && opt_set_eqb (get_potential_roots R_PATH R_NAME (dc_tree c) (dc_args c)) (dc_gpr c).
+
+(* how many directories of the tree hold a marker / how deep the deepest of them lies (evidence) *)
+Fixpoint marker_dirs (n : rnode) : nat :=
+  match n with
+  | RFile _ => 0
+  | RDir cs => (if marker cs then 1 else 0) + list_sum (map (fun '(_, c) => marker_dirs c) cs)
+  end.
